@@ -697,13 +697,16 @@ def sel_head(name, perm=False):
     return h
 
 
-def gather_axis(v, ax, idxname, newsize, perm=False):
+def gather_axis(v, ax, idxname, newsize, perm=False, inverse=False):
     """v.take(idx, axis=ax) / v[..., idx, ...]: contraction with a one-hot selection head.
-    perm: idx is a permutation of the whole axis (distinct indices, newsize == size): the head is orthogonal."""
+    perm: idx is a permutation of the whole axis (distinct indices, newsize == size): the head is orthogonal.
+    inverse (perm only): gather with the inverse permutation = the same head with its two slots exchanged."""
     nd = len(v.axes)
     ax = _norm_axis(ax, nd)
     A = v.axes[ax]
     h = sel_head(idxname, perm and axsize(A) == D(newsize))
+    if inverse and not (perm and axsize(A) == D(newsize) and ST.head[h].extra == "perm"):
+        raise Undecided("inverse of an index array that is not a permutation of the whole axis")
     newsize = D(newsize)
     if len(A) > 1:
         raise Undecided("gather on a composite axis")
@@ -721,7 +724,7 @@ def gather_axis(v, ax, idxname, newsize, perm=False):
     else:
         w = fresh(newsize, "s")
         new = (w,)
-        fac = (h, (w, nb))
+        fac = (h, (nb, w)) if inverse else (h, (w, nb))
     terms = [(c, Net(n.rename({old: nb}).f + (fac,))) for c, n in v.terms]
     axes = list(v.axes)
     axes[ax] = new
@@ -935,6 +938,53 @@ def _matrix_axes(v, what):
     return A, B
 
 
+def _strip_perm_conjugation(v, nt, A, B):
+    """v = P X P' with P a permutation head acting on both matrix axes (same head, same orientation in every term):
+    returns (X as a Val, head, slot position of the matrix index) or None."""
+    if not nt or len(A) != 1 or len(B) != 1:
+        return None
+    a, b = A[0], B[0]
+    found = None
+    stripped = []
+    na, nb_ = fresh(ST.size[a], "p"), fresh(ST.size[b], "p")
+    for c, n in nt:
+        fa = [(k, h, ix) for k, (h, ix) in enumerate(n.f) if ST.head[h].kind == "Sel" and ST.head[h].extra == "perm" and len(ix) == 2 and a in ix]
+        fb = [(k, h, ix) for k, (h, ix) in enumerate(n.f) if ST.head[h].kind == "Sel" and ST.head[h].extra == "perm" and len(ix) == 2 and b in ix]
+        if len(fa) != 1 or len(fb) != 1 or fa[0][1] != fb[0][1] or fa[0][0] == fb[0][0]:
+            return None
+        (ka, h, ixa), (kb, _, ixb) = fa[0], fb[0]
+        pos = ixa.index(a)
+        if ixb.index(b) != pos or (found is not None and found != (h, pos)):
+            return None
+        cntv = Counter(i for _, ix in n.f for i in ix)
+        if cntv[a] != 1 or cntv[b] != 1:
+            return None
+        found = (h, pos)
+        ia, ib = ixa[1 - pos], ixb[1 - pos]
+        if ia == ib:
+            rest = Net([g for k, g in enumerate(n.f) if k not in (ka, kb)] + [("delta", (na, nb_))]).rename({ia: na})
+        else:
+            rest = Net([g for k, g in enumerate(n.f) if k not in (ka, kb)]).rename({ia: na, ib: nb_})
+        stripped.append((c, rest))
+    X = Val(list(v.axes[:-2]) + [(na,), (nb_,)], stripped)
+    return X, found[0], found[1]
+
+
+def _apply_perm(x, ax, h, pos):
+    """contract axis ax of x with permutation head h, the new (free) index in slot `pos`"""
+    nd = len(x.axes)
+    ax = _norm_axis(ax, nd)
+    A = x.axes[ax]
+    old = A[0]
+    nb_ = fresh(ST.size[old], "b")
+    w = fresh(ST.size[old], "s")
+    fac = (h, (w, nb_)) if pos == 0 else (h, (nb_, w))
+    terms = [(c, Net(n.rename({old: nb_}).f + (fac,))) for c, n in x.terms]
+    axes = list(x.axes)
+    axes[ax] = (w,)
+    return Val(axes, terms, kind=x.kind)
+
+
 def inverse(v, what="inverse"):
     """returns (Inv(v), LnDet(v)) for a batch of symmetric positive definite matrices."""
     v = as_val(v)
@@ -943,6 +993,12 @@ def inverse(v, what="inverse"):
     lifted = _try_lift(v, nt, lambda x: inverse(x, what), protect=2)
     if lifted is not None:
         return lifted
+    sp = _strip_perm_conjugation(v, nt, A, B)
+    if sp is not None:
+        # Inv(P X P') = P Inv(X) P',  LnDet(P X P') = LnDet(X)
+        X, h, pos = sp
+        iX, ld = inverse(X, what)
+        return _apply_perm(_apply_perm(iX, -2, h, pos), -1, h, pos), ld
     axes, m = fresh_axes(v.axes)
     baxes = axes[:-2]
     mvars = tuple(A) + tuple(B)
@@ -1030,6 +1086,9 @@ def logdet(v, what="slogdet"):
     lifted = _try_lift(v, nt, lambda x: logdet(x, what), protect=2)
     if lifted is not None:
         return lifted
+    sp = _strip_perm_conjugation(v, nt, A, B)
+    if sp is not None:
+        return logdet(sp[0], what)
     axes, m = fresh_axes(v.axes)
     baxes = axes[:-2]
     mvars = tuple(A) + tuple(B)
@@ -1330,6 +1389,15 @@ def simplify(coef, net, free):
                         break
                 if done:
                     break
+                for i2, (h2, x2) in enumerate(f):
+                    if i2 <= i1 or h2 != h1 or len(x2) != 2 or x2[0] != w or x2[1] == v:
+                        continue
+                    if w not in free and cnt[w] == 2:
+                        f = [g for k, g in enumerate(f) if k not in (i1, i2)] + [("delta", (v, x2[1]))]   # P' P = I
+                        changed = done = True
+                        break
+                if done:
+                    break
             for i2, (h2, x2) in enumerate(f):
                 if i2 <= i1 or h2 != h1 or len(x2) != len(x1):
                     continue
@@ -1552,7 +1620,7 @@ def _absorb_inverse(terms, free):
                         key = (h, tuple(sorted(_net_sig(restnet))))
                         cands.setdefault(key, []).append((t, ti, c / ct, restnet, a_, s_))
                         break
-                if s_ in free or cnt[s_] != 2 or s_ == a_:
+                if s_ in free or s_ == a_:
                     continue
                 for t, (ct, nt_) in enumerate(arg):
                     base = dict(zip(info.bslots, ix[:-2]))
@@ -1570,6 +1638,8 @@ def _absorb_inverse(terms, free):
                             rest_vars = {j for _, jx in rest for j in jx}
                             if any(mm[x] in rest_vars or mm[x] in free for x in pat_bound):
                                 continue
+                            if s_ in rest_vars:
+                                continue        # the contracted index is also used outside Inv(X) X (not a plain matrix product)
                             if c_ == s_:
                                 continue
                             restnet = Net(rest + [("@a", (a_,)), ("@c", (c_,))])
@@ -1807,3 +1877,135 @@ def partition_identity(prod, ax=-2):
         blk = embed_axis(embed_axis(eye(ln), 0, off, tot), 1, off, tot)
         out = blk if out is None else add(out, blk)
     return out
+
+
+# --------------------------------------------------------------------------------- stated axioms as substitutions
+def subst_head_top(v, like, repl, what="axiom"):
+    """Replace every top-level occurrence of the opaque head that the value `like` consists of (`like` normalises to one
+    factor with coefficient one, e.g. Inv(Sigma_y) as produced by the analysed code) by the value `repl`, which has the
+    same axes as `like`.  Used to apply a *stated* matrix identity (Woodbury, determinant lemma) whose left-hand side the
+    rewrite system keeps opaque.  Occurrences inside arguments of other opaque heads are not touched."""
+    like, repl = as_val(like), as_val(repl)
+    nl = normalize(like)
+    if len(nl) != 1 or not nl[0][0].is_one() or len(nl[0][1].f) != 1:
+        raise Undecided(f"{what}: the left-hand side is not a single opaque head")
+    hid, ix = nl[0][1].f[0]
+    if len(like.axes) != len(repl.axes):
+        raise ShapeError(f"{what}: ranks of the two sides differ")
+    pos = {}
+    for A, B in zip(like.axes, repl.axes):
+        if axsize(A) != axsize(B):
+            raise ShapeError(f"{what}: shapes of the two sides differ")
+        if len(A) > 1 or len(B) > 1:
+            raise Undecided(f"{what}: composite axis")
+        if A and B:
+            if A[0] not in ix:
+                raise Undecided(f"{what}: axis of the left-hand side is not a slot of its head")
+            pos[B[0]] = ix.index(A[0])
+        elif A or B:
+            raise Undecided(f"{what}: unit / non-unit axis mismatch")
+    rterms = normalize(repl)
+    terms = list(normalize(v))
+    free = allfree(v)
+    guard = 0
+    while True:
+        guard += 1
+        if guard > 50:
+            raise Undecided(f"{what}: substitution did not terminate")
+        out, changed = [], False
+        for c, n in terms:
+            k = next((j for j, (h, _) in enumerate(n.f) if h == hid), None)
+            if k is None:
+                out.append((c, n))
+                continue
+            changed = True
+            jx = n.f[k][1]
+            rest = [g for j, g in enumerate(n.f) if j != k]
+            for rc, rn in rterms:
+                m = {x: jx[p] for x, p in pos.items()}
+                for x in rn.vars():
+                    if x not in m:
+                        m[x] = fresh(ST.size[x], "w")
+                out.append((c * rc, Net(rest + list(rn.rename(m).f))))
+        terms = normalize_terms(out, free)
+        if not changed:
+            break
+    return Val(v.axes, terms, kind=v.kind)
+
+
+def _pivot_summand(info):
+    """the summand of a hash-consed Inv argument X = sum_t c_t X_t that is eliminated by  c_0 X_0 Inv(X) = I - sum_{t>0} c_t X_t Inv(X):
+    deterministic choice - fewest factors, then smallest signature; summands carrying an explicit delta of the two matrix slots are skipped."""
+    best = None
+    for t, (ct, nt_) in enumerate(info.arg[1]):
+        if any(g[0] == "delta" and set(g[1]) == set(info.mslots) for g in nt_.f):
+            continue
+        key = (len(nt_.f), tuple(sorted(_net_sig(nt_))), repr(ct))
+        if best is None or key < best[0]:
+            best = (key, t)
+    return None if best is None else best[1]
+
+
+def eliminate_inverse(v, what="eliminate"):
+    """Directed use of the defining relation of hash-consed inverses: for Inv(X), X = sum_t c_t X_t (value-numbered), every matrix product
+    X_0 Inv(X) of the pivot summand with the inverse is rewritten to (I - sum_{t>0} c_t X_t Inv(X)) / c_0.  Terminating (the products it
+    creates are not pivot products) and sound (X Inv(X) = I); makes differences vanish that the collecting rule (all summands present with
+    a common cofactor) cannot see."""
+    v = as_val(v)
+    free = allfree(v)
+    H = ST.head
+    terms = normalize(v)
+    for _ in range(400):
+        hit = None
+        for ti, (c, n) in enumerate(terms):
+            for fi, (h, ix) in enumerate(n.f):
+                info = H[h]
+                if info.kind != "Inv" or len(ix) < 2 or len(info.arg[1]) < 2:
+                    continue
+                t0 = _pivot_summand(info)
+                if t0 is None:
+                    continue
+                ct0, nt0 = info.arg[1][t0]
+                others = [g for k, g in enumerate(n.f) if k != fi]
+                base = dict(zip(info.bslots, ix[:-2]))
+                for spos in (-1, -2):
+                    s_, g_ = ix[spos], ix[-1 if spos == -2 else -2]
+                    if s_ in free or s_ == g_:
+                        continue
+                    for (m1, m2) in ((info.mslots[0], info.mslots[1]), (info.mslots[1], info.mslots[0])):
+                        m0 = dict(base)
+                        m0[m1] = s_
+                        for mm, used in _match_subnet(list(nt0.f), others, m0, frozenset(), None):
+                            if m2 not in mm or mm[m2] == s_:
+                                continue
+                            a_ = mm[m2]
+                            pat_bound = [x for x in mm if x not in info.bslots and x not in info.mslots]
+                            rest = [g for k, g in enumerate(others) if k not in used]
+                            rest_vars = {j for _, jx in rest for j in jx}
+                            if any(mm[x] in rest_vars or mm[x] in free for x in pat_bound) or s_ in rest_vars:
+                                continue
+                            hit = (ti, c, rest, h, ix, info, t0, ct0, m1, m2, s_, a_, g_, base)
+                            break
+                        if hit:
+                            break
+                    if hit:
+                        break
+                if hit:
+                    break
+            if hit:
+                break
+        if hit is None:
+            return Val(v.axes, terms, kind=v.kind)
+        ti, c, rest, h, ix, info, t0, ct0, m1, m2, s_, a_, g_, base = hit
+        new = [(c / ct0, Net(list(rest) + [("delta", (a_, g_))]))]
+        for t, (ct, nt_) in enumerate(info.arg[1]):
+            if t == t0:
+                continue
+            ren = dict(base)
+            ren[m1], ren[m2] = s_, a_
+            for x in nt_.vars():
+                if x not in ren:
+                    ren[x] = fresh(ST.size[x], "e")
+            new.append((-(c / ct0) * ct, Net(list(rest) + list(nt_.rename(ren).f) + [(h, ix)])))
+        terms = normalize_terms([t for k, t in enumerate(terms) if k != ti] + new, free)
+    raise Undecided(f"{what}: elimination did not terminate")
